@@ -77,16 +77,15 @@ func (m *MMap) Write(b []byte) (int, error) {
 }
 
 func (m *MMap) Sync() error {
+	// 映射已被 ResetFileSize 解除, 数据已在解除前刷盘
+	if m.activeMap == nil {
+		return nil
+	}
 	return m.activeMap.Flush()
 }
 
 func (m *MMap) Close() error {
-	if err := m.activeMap.Flush(); err != nil {
-		return err
-	}
-	if err := m.activeMap.Unmap(); err != nil {
-		return err
-	}
+	// ResetFileSize 负责刷盘、解除映射(如仍存在)并将文件截断为真实大小
 	if err := m.ResetFileSize(); err != nil {
 		return err
 	}
@@ -98,6 +97,17 @@ func (m *MMap) Size() (int64, error) {
 }
 
 func (m *MMap) ResetFileSize() error {
+	// 映射区域不得超出文件的实际长度: 先刷盘并解除映射, 后续读写时按需重新映射
+	if m.activeMap != nil {
+		if err := m.activeMap.Flush(); err != nil {
+			return err
+		}
+		if err := m.activeMap.Unmap(); err != nil {
+			return err
+		}
+		m.activeMap = nil
+		m.endOff = 0
+	}
 	return m.file.Truncate(m.virtualSize)
 }
 
